@@ -284,6 +284,7 @@ void TlsWorld::teardown() {
     close_sessions();
     cli.reset(); srv.reset();
     vsim_set_node(NODE_HARNESS);
+    if (!own_keys) { sid = nullptr; ckeys = nullptr; skeys = nullptr; return; }
     if (sid) { matrixSslDeleteSessionId(sid); sid = nullptr; }
     if (ckeys) { matrixSslDeleteKeys(ckeys); ckeys = nullptr; }
     if (skeys) { matrixSslDeleteKeys(skeys); skeys = nullptr; }
